@@ -32,6 +32,24 @@ SYNC_HOF = {
     "std::iter::Iterator::position": True,
     "std::iter::Iterator::find": True,
     "std::iter::Iterator::fold": True,
+    # lazy adaptors: the closure runs when the chain is consumed, in the same function and under
+    # the same temporaries (guards) - treated as called where it is handed over
+    "std::iter::Iterator::inspect": True,
+    "std::iter::Iterator::filter_map": True,
+    "std::iter::Iterator::flat_map": True,
+    "std::iter::Iterator::take_while": True,
+    "std::iter::Iterator::skip_while": True,
+    "std::iter::Iterator::map_while": True,
+    "std::iter::Iterator::try_for_each": True,
+    "std::iter::Iterator::try_fold": True,
+    "std::iter::Iterator::find_map": True,
+    "std::iter::Iterator::rposition": True,
+    "std::iter::Iterator::max_by_key": True,
+    "std::iter::Iterator::min_by_key": True,
+    "std::iter::Iterator::scan": True,
+    "std::vec::Vec::dedup_by_key": True,
+    "std::vec::Vec::dedup_by": True,
+    "std::vec::Vec::extract_if": True,
 }
 # functions that run the closure on another thread (never inlined)
 DEFERRED = {
